@@ -314,8 +314,7 @@ func storageLoadByNodeId(x *Exec, st *State, c *CallCtx) []Outcome {
 	x.registerElemPrefix(elemPrefix(et), et)
 	row := x.fresh(st, "nodesrow", arrSort(SInt, SInt))
 	name := elemPrefix(et)
-	a := x.heapCur(st, name, arrSort(SInt, arrSort(SInt, SInt)))
-	x.heapSet(st, name, StoreT(a, sref, row))
+	x.writeRow(st, name, arrSort(SInt, SInt), sref, row)
 	// havoc the field arrays of NodeInformation: old objects keep their values, the
 	// new elements are copies of stored snapshots
 	hasA := x.stHas(st, "nodeinfo")
